@@ -475,7 +475,7 @@ func (a *plAnalysis) checkC04(expectSynthetic map[string]bool) {
 				a.v("C04/partial-drop/"+d.kind, "drop request %s issued although only %d of %d shards carry the drop message", key, len(d.packIdx), len(d.coll.Shards))
 			}
 			if e.ReplicateInfo == nil || !e.ReplicateInfo.IsReplicate || e.ReplicateInfo.MsgTimestamp != d.ts {
-				a.v("C04/drop-stamp/"+d.kind, "drop request %s carries replicate info %v, the drop message has begin ts %d", key, e.ReplicateInfo, d.ts)
+				a.v("C20/event-stamp/drop-"+d.kind, "drop request %s carries replicate info %v, the drop message has begin ts %d", key, e.ReplicateInfo, d.ts)
 			}
 			if e.TaskID != "task-"+d.coll.Name {
 				a.v("C04/drop-task/"+d.kind, "drop request %s attributed to task %q", key, e.TaskID)
